@@ -116,13 +116,34 @@ def UObj.verify (x : UObj) (u : Usage) (kid : Nat) : Bool :=
 /-- `sign` / `encipher` / `hkdf_s256_expand` at time `t`: the kid of the key used. -/
 def UObj.sign (x : UObj) (t : Nat) : Option Nat := (pickSigner x.active t).map (·.2)
 
-/-- `KeyObjectInternal`: one optional key set per usage. -/
-abbrev KeyObj := Usage → Option UObj
+/-- `KeyObjectInternal`: one optional key set per usage (`jws_es256`, `jws_hs256`, `jws_rs256`,
+`jwe_a128gcm`, `hkdf_s256`). -/
+structure KeyObj where
+  es256 : Option UObj
+  hs256 : Option UObj
+  rs256 : Option UObj
+  jwe : Option UObj
+  hkdf : Option UObj
 
-def KeyObj.empty : KeyObj := fun _ => none
+/-- The key set of a usage. -/
+def KeyObj.get (o : KeyObj) : Usage → Option UObj
+  | .jwsEs256 => o.es256
+  | .jwsHs256 => o.hs256
+  | .jwsRs256 => o.rs256
+  | .jweA128GCM => o.jwe
+  | .hkdfS256 => o.hkdf
+
+instance : CoeFun KeyObj (fun _ => Usage → Option UObj) := ⟨KeyObj.get⟩
+
+def KeyObj.empty : KeyObj := ⟨none, none, none, none, none⟩
 
 def KeyObj.set (o : KeyObj) (u : Usage) (x : UObj) : KeyObj :=
-  fun v => if v = u then some x else o v
+  match u with
+  | .jwsEs256 => { o with es256 := some x }
+  | .jwsHs256 => { o with hs256 := some x }
+  | .jwsRs256 => { o with rs256 := some x }
+  | .jweA128GCM => { o with jwe := some x }
+  | .hkdfS256 => { o with hkdf := some x }
 
 /-- The key id the generator produces for the `i`-th modify of a transaction, usage `u`, valid
 from `vf` (supplied by the harness from what the real code generated). -/
@@ -177,12 +198,10 @@ def KeyObj.verify (o : KeyObj) (u : Usage) (kid : Nat) : Bool :=
 
 /-! ## The plugin (`apply_keyobject_inner`) and the entry -/
 
-/-- The key actions of one modify. `retain` is a harness device (a `Modify::Set` of the stored map
-with one `Valid` record turned `Retained`), the only way to obtain a `Retained` key. -/
+/-- The key actions of one modify (`KeyActionRevoke` set, `KeyActionRotate` time). -/
 structure Action where
   revoke : Option (List Nat) := none
   rotate : Option Nat := none
-  retain : Option Nat := none
   deriving Repr
 
 def rotationTime (secs now : Nat) : Nat := if rotateUsesRequested secs now then secs else now
@@ -227,19 +246,18 @@ def keepRec (t : Nat) (r : KRec) : Bool :=
 
 def trimMap (t : Nat) (m : KMap) : KMap := m.filter (fun e => keepRec t e.2)
 
+/-- A partner's stored map in which the `Valid` key `k` has been retired to `Retained` (no
+operation of this code base does that; a `Retained` record can only arrive by replication). -/
 def retainMap (m : KMap) (k : Nat) : KMap :=
   m.map (fun e => if e.1 = k ∧ e.2.status = .valid then (e.1, { e.2 with status := .retained }) else e)
 
 /-- One modify of the key object entry inside a write transaction whose key providers hold
-`loaded`: `invalidate` (trim) — or the `Set` of the retain device —, plugin, `merge_ava_set`. -/
+`loaded`: `invalidate` (trim), plugin, `merge_ava_set`. -/
 def modifyEntry (loaded : KeyObj) (classes : List Usage) (m : KMap) (a : Action)
     (now cid trim : Nat) (fresh : Fresh) : Option KMap :=
   match pluginObj loaded classes a now cid fresh with
   | none => none
-  | some ko =>
-    some (entryMerge (some (match a.retain with
-                            | some k => retainMap m k
-                            | none => trimMap trim m)) ko.toMap)
+  | some ko => some (entryMerge (some (trimMap trim m)) ko.toMap)
 
 /-- `pre_create_transform` of a new key object entry. -/
 def createEntry (classes : List Usage) (now cid : Nat) (fresh : Fresh) : Option KMap :=
@@ -304,5 +322,73 @@ def Srv.step (s : Srv) : Op → Srv
   | .replIn sup trim => s.replIn sup trim
 
 def Srv.run (s : Srv) (ops : List Op) : Srv := ops.foldl Srv.step s
+
+/-! ## Two replicas: what the supplier offers (`ReplIncrementalEntryV1::new`)
+
+A cid is `ts * 4 + origin` (origin = rank of the server uuid, 0 = the nil uuid of trim cids).
+A node knows, per origin server, the time of the newest change to this entry it holds (its RUV
+maximum restricted to this entry; changes of one origin are delivered in order). -/
+
+def cidTs (c : Nat) : Nat := c / 4
+def cidOrigin (c : Nat) : Nat := c % 4
+
+structure Node where
+  id : Nat
+  srv : Srv
+  seen : List (Nat × Nat)
+
+/-- The newest change time of origin `o` this node holds (0 = none). -/
+def Node.seenOf (n : Node) (o : Nat) : Nat := (lookup n.seen o).getD 0
+
+/-- Per origin the later of two times. -/
+def seenMerge (a b : List (Nat × Nat)) : List (Nat × Nat) :=
+  b.foldl (fun m e => mapInsert m e.1 (max ((lookup m e.1).getD 0) e.2)) a
+
+/-- `ReplIncrementalEntryV1::new`: the `KeyInternalData` attribute is put into the supply iff its
+change cid lies in the range the consumer lacks from *that cid's origin server*
+(`ctx_range.get(&cid.s_uuid).map(|r| cid.ts <= r.ts_max && cid.ts > r.ts_min).unwrap_or(false)`;
+the range exists iff the supplier has more of that origin than the consumer). -/
+def offered (sup c : Node) : Bool :=
+  if c.seenOf (cidOrigin sup.srv.attrCid) < sup.seenOf (cidOrigin sup.srv.attrCid) then
+    attrWithin (cidTs sup.srv.attrCid) (c.seenOf (cidOrigin sup.srv.attrCid))
+      (sup.seenOf (cidOrigin sup.srv.attrCid))
+  else false
+
+/-- A committed write transaction on a node (a dropped one leaves no change behind). -/
+def Node.txn (n : Node) (acts : List (Action × Fresh)) (now cid trim : Nat) : Node :=
+  match acts with
+  | [] => n
+  | _ =>
+    match txnMap n.srv.loaded n.srv.classes now cid trim n.srv.map acts with
+    | none => n
+    | some _ =>
+      { n with srv := n.srv.txn acts now cid trim
+               seen := mapInsert n.seen n.id (max (n.seenOf n.id) (cidTs cid)) }
+
+/-- Incremental replication `sup → c` with the partner's stored map as transmitted (`supMap`
+= `sup.srv.map`, or with one key retired in flight). -/
+def Node.pull (c sup : Node) (supMap : KMap) (trim : Nat) : Node :=
+  { c with srv := if offered sup c then c.srv.replIn { sup.srv with map := supMap } trim else c.srv
+           seen := seenMerge c.seen sup.seen }
+
+/-- Operations of a pair of replicas `(a, b)`. -/
+inductive NetOp where
+  | txnA (acts : List (Action × Fresh)) (now cid trim : Nat)
+  | txnB (acts : List (Action × Fresh)) (now cid trim : Nat)
+  | pullA (trim : Nat)   -- a pulls from b
+  | pullB (trim : Nat)   -- b pulls from a
+
+def netStep (ab : Node × Node) : NetOp → Node × Node
+  | .txnA acts now cid trim => (ab.1.txn acts now cid trim, ab.2)
+  | .txnB acts now cid trim => (ab.1, ab.2.txn acts now cid trim)
+  | .pullA trim => (ab.1.pull ab.2 ab.2.srv.map trim, ab.2)
+  | .pullB trim => (ab.1, ab.2.pull ab.1 ab.1.srv.map trim)
+
+def netRun (ab : Node × Node) (ops : List NetOp) : Node × Node := ops.foldl netStep ab
+
+/-- Two replicas right after the key object was created on `a` (at `cid`) and replicated to `b`. -/
+def netInit (classes : List Usage) (m : KMap) (cid : Nat) : Node × Node :=
+  (⟨1, ⟨classes, m, cid⟩, [(1, cidTs cid)]⟩,
+   ⟨2, ⟨classes, m, cid⟩, [(1, cidTs cid)]⟩)
 
 end Kanidm.KeyObject
